@@ -21,8 +21,8 @@ fn edits_on(file: u8, ai_bias: u32) -> impl Strategy<Value = Vec<HOp>> {
 pub fn strategy() -> impl Strategy<Value = Case> {
     (
         proptest::collection::vec(file_init(1, 8), 3..=3),
-        // topic side: 1-3 commits on file A (mostly agents)
-        proptest::collection::vec(edits_on(0, 6), 1..=3),
+        // topic side: 1-3 commits, each on file A or (a third of the time) on file C (mostly agents)
+        proptest::collection::vec(prop_oneof![2 => Just(0u8), 1 => Just(2u8)].prop_flat_map(|f| edits_on(f, 6)), 1..=3),
         // upstream side: 1-2 commits, usually on another file (precondition holds), sometimes on A
         proptest::collection::vec((prop_oneof![7 => Just(1u8), 3 => Just(0u8), 1 => Just(2u8)], 1u32..4).prop_flat_map(|(f, b)| edits_on(f, b)), 1..=2),
         prop_oneof![
@@ -32,6 +32,8 @@ pub fn strategy() -> impl Strategy<Value = Case> {
             2 => Just(3u8), // cherry-pick 2
             1 => Just(4u8), // rebase -i squash
             1 => Just(5u8), // rebase -i drop
+            5 => Just(6u8), // rebase -i reorder
+            1 => Just(7u8), // rebase -i fixup
         ],
         resolve(),
         // an original commit without a note / an empty commit in the range
@@ -67,9 +69,17 @@ pub fn strategy() -> impl Strategy<Value = Case> {
                     ops.push(HOp::SwitchPrev);
                     ops.push(HOp::Rebase { target: 0, kind: RebaseKind::Squash, resolve: res });
                 }
-                _ => {
+                5 => {
                     ops.push(HOp::SwitchPrev);
                     ops.push(HOp::Rebase { target: 0, kind: RebaseKind::DropFirst, resolve: res });
+                }
+                6 => {
+                    ops.push(HOp::SwitchPrev);
+                    ops.push(HOp::Rebase { target: 0, kind: RebaseKind::Reorder, resolve: res });
+                }
+                _ => {
+                    ops.push(HOp::SwitchPrev);
+                    ops.push(HOp::Rebase { target: 0, kind: RebaseKind::Fixup, resolve: res });
                 }
             }
             HCase { files, ops }
@@ -221,8 +231,8 @@ pub fn spec() -> Spec<Case> {
     Spec {
         id: "C15",
         level: "exploration",
-        rule: "rebase / cherry-pick scenarios biased toward the shortcut's precondition: a topic branch with 1-3 commits on file A (mostly agent edits; optionally a human-only commit without AI lines in between), an upstream with 1-2 commits usually on another file (precondition holds for all pairs) and sometimes on A (fails for some pair), then rebase {plain, --onto, -i squash, -i drop} or cherry-pick {1, 2 commits} with generated conflict resolutions. Each scenario runs twice with pinned dates: normally, and with GIT_AI_VERIF_NO_FAST_PATH=1 (verification hook) so both shortcuts decline. For every rewritten commit: attestations restricted to the lines that commit adds are equal, prompt records (agent_id, messages, human_author) of referenced sessions are equal, base_commit_sha is the new commit in both; blame at every tip is equal. Whether the shortcut ran is read from its debug log line. non-trivial = the shortcut was actually taken; distinct by case hash".into(),
-        cases_quick: 112,
+        rule: "rebase / cherry-pick scenarios biased toward the shortcut's precondition: a topic branch with 1-3 commits each on file A or file C (mostly agent edits; optionally a human-only commit without AI lines in between), an upstream with 1-2 commits usually on another file (precondition holds for all pairs) and sometimes on A (fails for some pair), then rebase {plain, --onto, -i squash, -i drop, -i reorder, -i fixup} or cherry-pick {1, 2 commits} with generated conflict resolutions. Each scenario runs twice with pinned dates: normally, and with GIT_AI_VERIF_NO_FAST_PATH=1 (verification hook) so both shortcuts decline. For every rewritten commit: attestations restricted to the lines that commit adds are equal, prompt records (agent_id, messages, human_author) of referenced sessions are equal, base_commit_sha is the new commit in both; blame at every tip is equal. Whether the shortcut ran is read from its debug log line. non-trivial = the shortcut was actually taken; distinct by case hash".into(),
+        cases_quick: 224,
         cases_thorough: 3000,
         shrink_iters: 50,
         workers: 14,
